@@ -359,8 +359,8 @@ def r2_overheads(ck, cx):
 
 def run(ck, tier):
     cx = Ctx()
-    r1_prediction(ck, cx)
-    r2_overheads(ck, cx)
+    ck.guard(r1_prediction, ck, cx)
+    ck.guard(r2_overheads, ck, cx)
     ck.assume('datastore contract: getValues(fc, address, n) returns n values')
     ck.assume('binary framing: the overhead is exact only when the payload contains no delimiter bytes (escaping adds bytes)')
     ck.assume('what the transport really returns is not decided')
